@@ -16,61 +16,28 @@ Open Scope Z_scope.
 Theorem C11_public_stream_reuses_sync_chain : public_rand_stream_calls_sync_chain = true.
 Proof. reflexivity. Qed.
 
-(* the full statement: on both back-ends, for every schedule, what a stream has sent is a prefix of
-   the stored beacons from its start position (no round skipped or repeated, each equal to the
-   stored one) *)
-Definition C11_full : Prop :=
-  forall bk g es k s, nth_error (streams (ss_run bk (ss_init g) es)) k = Some s ->
-    lprefix (s_sent s) (skipn (s_base s) (store (ss_run bk (ss_init g) es))).
-
-(* refuted: store 0..3, stream from 1; the scan sends 1, 2, 3 and ends; round 4 is appended before
-   AddCallback runs; then 5 and 6 arrive through the callback: sent 1 2 3 5 6 *)
-Definition handover_witness : list sev :=
-  [SPut 11; SPut 12; SPut 13; SStart 1 1; SAck 0 true; SAck 0 true; SAck 0 true;
-   SPut 14; SRegister 0; SPut 15; SPut 16; SAck 0 true; SAck 0 true].
-
-Theorem C11_refuted : ~ C11_full.
-Proof.
-  intro H.
-  assert (E : nth_error (streams (ss_run Mem (ss_init 10) handover_witness)) 0 =
-              Some (nth 0 (streams (ss_run Mem (ss_init 10) handover_witness)) (mkS 0 0 PWaitReg [] 0 [] [] None)))
-    by (vm_compute; reflexivity).
-  specialize (H Mem 10 handover_witness 0%nat _ E). apply lprefix_is_prefix in H. revert H. vm_compute. discriminate.
-Qed.
-Print Assumptions C11_refuted.
-
-Example C11_witness_sent :
-  map fst (s_sent (nth 0 (streams (ss_run Mem (ss_init 10) handover_witness)) (mkS 0 0 PWaitReg [] 0 [] [] None))) = [1; 2; 3; 5; 6] /\
-  map fst (s_sent (nth 0 (streams (ss_run Bolt (ss_init 10) handover_witness)) (mkS 0 0 PWaitReg [] 0 [] [] None))) = [1; 2; 3; 5; 6] /\
-  (* on bolt the window is wider: an append during the scan is lost as well (the scan reads a snapshot) *)
-  map fst (s_sent (nth 0 (streams (ss_run Bolt (ss_init 10)
-     [SPut 11; SPut 12; SPut 13; SStart 1 1; SPut 14; SAck 0 true; SAck 0 true; SAck 0 true; SRegister 0; SPut 15; SAck 0 true]))
-     (mkS 0 0 PWaitReg [] 0 [] [] None))) = [1; 2; 3; 5] /\
-  map fst (s_sent (nth 0 (streams (ss_run Mem (ss_init 10)
-     [SPut 11; SPut 12; SPut 13; SStart 1 1; SPut 14; SAck 0 true; SAck 0 true; SAck 0 true; SAck 0 true; SRegister 0; SPut 15; SAck 0 true]))
-     (mkS 0 0 PWaitReg [] 0 [] [] None))) = [1; 2; 3; 4; 5].
-Proof. vm_compute. repeat split; reflexivity. Qed.
-
-(* proved, for every schedule on both back-ends, any number of streams and reconnects:
-   if no beacon was appended between a stream's snapshot / last scan read and its AddCallback
-   ([s_missed s] collects exactly those appends), then what it has sent is a prefix of the stored
-   beacons from its start position ... *)
-Theorem C11_contiguous_no_window : forall bk g es k s,
-  nth_error (streams (ss_run bk (ss_init g) es)) k = Some s -> s_missed s = [] ->
+(* the full statement, proved for every schedule on both back-ends, any number of concurrent
+   streams and same-id reconnects: what a stream has sent is a prefix of the stored beacons from its
+   start position (no round skipped or repeated, strictly increasing, each equal to the stored
+   one). SyncChain remembers the last round it sent, drops callback beacons at or below it and
+   reads what was stored between its scan and AddCallback from the store (fix of the hand-over
+   window, see known_findings.txt "fixed: property=C11"). *)
+Theorem C11_full : forall bk g es k s,
+  nth_error (streams (ss_run bk (ss_init g) es)) k = Some s ->
   lprefix (s_sent s) (skipn (s_base s) (store (ss_run bk (ss_init g) es))).
-Proof. exact stream_contiguous. Qed.
-Print Assumptions C11_contiguous_no_window.
+Proof. exact stream_full. Qed.
+Print Assumptions C11_full.
 
 (* ... that is: the i-th beacon sent has round start+i and is the stored beacon of that round;
    the start position is the requested round (unless the request was for round 0 = "from now on",
    or was refused because it lies beyond the head) *)
-Theorem C11_contiguous_rounds : forall bk g es k s,
-  nth_error (streams (ss_run bk (ss_init g) es)) k = Some s -> s_missed s = [] ->
+Theorem C11_rounds : forall bk g es k s,
+  nth_error (streams (ss_run bk (ss_init g) es)) k = Some s ->
   forall i b, nth_error (s_sent s) i = Some b ->
     fst b = Z.of_nat (s_base s + i) /\
     nth_error (store (ss_run bk (ss_init g) es)) (s_base s + i) = Some b.
-Proof. exact stream_contiguous_rounds. Qed.
-Print Assumptions C11_contiguous_rounds.
+Proof. exact stream_full_rounds. Qed.
+Print Assumptions C11_rounds.
 
 Theorem C11_start_round : forall bk g es k s,
   nth_error (streams (ss_run bk (ss_init g) es)) k = Some s ->
@@ -78,27 +45,31 @@ Theorem C11_start_round : forall bk g es k s,
 Proof. exact stream_base. Qed.
 Print Assumptions C11_start_round.
 
-(* exact characterisation, without any carve-out: what a stream sends is a prefix of [s_exp s],
-   and the requested part of the store is an interleaving of [s_exp s] and the beacons appended in
-   the hand-over window: those are the ONLY beacons that can be skipped *)
-Theorem C11_skips_only_window : forall bk g es k s,
-  nth_error (streams (ss_run bk (ss_init g) es)) k = Some s ->
-  lprefix (s_sent s) (s_exp s) /\
-  exists C rest, skipn (s_base s) (store (ss_run bk (ss_init g) es)) = C ++ rest /\
-                 merge (s_exp s) (s_missed s) C.
-Proof. exact stream_exact. Qed.
-Print Assumptions C11_skips_only_window.
-
-(* once registered (AddCallback ran with the store at length p and n0 beacons sent), what the
-   stream sends afterwards is a prefix of the appends from that point on, in append order *)
+(* once AddCallback ran (the store covered p beacons of which the stream had sent n0 counting from
+   its start), what the stream sends afterwards is a prefix of the store from position p on, in
+   append order: first what was stored since its scan, then the live appends *)
 Theorem C11_order_live : forall bk g es k s p n0,
   nth_error (streams (ss_run bk (ss_init g) es)) k = Some s -> s_reg s = Some (p, n0) ->
   lprefix (skipn n0 (s_sent s)) (skipn p (store (ss_run bk (ss_init g) es))).
 Proof. exact stream_order_live. Qed.
 Print Assumptions C11_order_live.
 
-(* ---------- non-vacuity: two concurrent streams and a reconnect under the same id, no append in
-   any window: premises hold and the streams have delivered several rounds ---------- *)
+(* regression: the schedule that used to lose round 4 (store 0..3, stream from 1, an append between
+   the end of the scan and AddCallback, sent 1 2 3 5 6 before the fix), and the append during the
+   scan of a bolt snapshot *)
+Definition handover_witness : list sev :=
+  [SPut 11; SPut 12; SPut 13; SStart 1 1; SAck 0 true; SAck 0 true; SAck 0 true;
+   SPut 14; SRegister 0; SPut 15; SPut 16; SAck 0 true; SAck 0 true; SAck 0 true].
+Example C11_witness_repaired :
+  map fst (s_sent (nth 0 (streams (ss_run Mem (ss_init 10) handover_witness)) (mkS 0 0 PWaitReg [] 0 [] [] None))) = [1; 2; 3; 4; 5; 6] /\
+  map fst (s_sent (nth 0 (streams (ss_run Bolt (ss_init 10) handover_witness)) (mkS 0 0 PWaitReg [] 0 [] [] None))) = [1; 2; 3; 4; 5; 6] /\
+  map fst (s_sent (nth 0 (streams (ss_run Bolt (ss_init 10)
+     [SPut 11; SPut 12; SPut 13; SStart 1 1; SPut 14; SAck 0 true; SAck 0 true; SAck 0 true; SRegister 0; SPut 15; SAck 0 true]))
+     (mkS 0 0 PWaitReg [] 0 [] [] None))) = [1; 2; 3; 4; 5].
+Proof. vm_compute. repeat split; reflexivity. Qed.
+
+(* ---------- non-vacuity: two concurrent streams and a reconnect under the same id; the streams
+   have delivered several rounds and are registered ---------- *)
 Definition busy_schedule : list sev :=
   [SPut 11; SPut 12; SPut 13;
    SStart 1 2; SStart 2 0; SRegister 1; SAck 0 true; SAck 0 true; SRegister 0;
